@@ -21,8 +21,25 @@ PRINT_VALUES = ["-1", "-5", "-100", "0-500", "0-32768", "65535", "65536", "70000
                 "R1", "@R1", "pc - 40100", "pc+1", "3 - 50, 7", "nolabel", "-pc", "R13, pc, -3"]
 
 
+# very long and very deep arguments: digit runs beyond what int() converts, chains and nestings beyond the recursion limit
+def long_args():
+    d = "1" * 5000
+    return [d, "R" + d, "0x" + d, "-" + d, "@" + d, "r1 = " + d, "r" + d + " = 1", "1" + "+1" * 3000, "(" * 3000 + "1" + ")" * 3000,
+            "-" * 5000 + "1", "@" * 5000 + "1", "1" + "*R1" * 400, "@" * 400 + "1 = 5", "r1 = " + "(" * 500 + "1", ",".join(["1"] * 3000),
+            "1+" * 3000, "SET(R1, " + d + ")", "SET(R" + d + ", 1)", "SET(R1, " + "(" * 3000 + ")", ":" + "d" * 3000 + " 1", "x" * 100000,
+            " ".join(["1"] * 5000), "LABEL(" + "a" * 70000 + ")"]
+
+
+LONG = None
+
+
 def gen_line(rng, labels):
+    global LONG
+    if LONG is None:
+        LONG = long_args()
     k = rng.random()
+    if k < 0.04:
+        return (rng.choice(COMMANDS + [""]) + " " + rng.choice(LONG)).strip()
     if k < 0.12:
         return "{} {} {}".format(rng.choice(["print", "p"]), rng.choice(FORMATS + [""]), rng.choice(PRINT_VALUES + labels)).replace("  ", " ")
     if k < 0.7:
@@ -64,6 +81,7 @@ def check(seed, n):
     seen = set()
     states = ["start", "middle", "finished", "pc-outside", "in-call", "weird-stack", "negative"]
     hist = {}
+    long_done = False
     for k in range(n):
         text = dbgsem.gen_program(rng, seed * 733 + k)
         if dbgsem.load_terminating(text, {"big_stack": k % 4 == 0}) is None:
@@ -76,11 +94,20 @@ def check(seed, n):
         prepare(shell, random.Random(prep_seed), state)
         labels = [s for s in shell.debugger.symbol_table]
         done = []
-        for _ in range(rng.choice([1, 3, 6])):
-            line = gen_line(rng, labels)
+        if not long_done:
+            # once per run, on the first usable program: every long / deep argument with the commands that parse arguments
+            long_done = True
+            long_pass = True
+            planned = [(c + " " + a).strip() for a in long_args() for c in ("print", "", "execute", "break", "assign", "next", "info")]
+        else:
+            long_pass = False
+            planned = [gen_line(rng, labels) for _ in range(rng.choice([1, 3, 6]))]
+        for line in planned:
+            if long_pass:
+                done = []            # independent commands: the replay holds the failing one only
             done.append(line)
             out, errs, exc, cont = dbg.feed(shell, line, limit=5)
-            proto.sample("shellfuzz", {"state": state, "line": line, "program": text[:200]})
+            proto.sample("shellfuzz", {"state": state, "line": line[:200], "program": text[:200]})
             evals += 1
             if exc and exc.startswith("Hang") and (state in ("pc-outside", "weird-stack", "negative") or any(
                     w in " ".join(done) for w in ("=", "assign", "exec", "goto", " g ", "on ", "off ", "e "))):
@@ -92,7 +119,9 @@ def check(seed, n):
                 violations.append({"property": "C14", "stream": "shellfuzz", "sig": "shell:" + line.split(" ")[0][:12] + ":" + exc.split(":")[0],
                                    "case": {"text": text, "state": state, "cmds": list(done), "seed": seed * 733 + k, "prep_seed": prep_seed,
                                             "big_stack": k % 4 == 0},
-                                   "what": "debugger command {!r} in state {} raised {}".format(line, state, exc)})
+                                   "what": "debugger command {!r}{} in state {} raised {}".format(line[:80], "..." if len(line) > 80 else "", state, exc)})
+                if long_pass and not exc.startswith("Hang"):
+                    continue
                 break
             if cont is False:
                 break
